@@ -1074,3 +1074,136 @@ func checkActionMarksRelUnknown(p *Program, r *Report, rule string) {
 	}
 	r.Check(bad == "" && n > 0, rule, cn, p.Pos(call.Pos()), "an action inside the rel attribute of a link marks the rel values as unknown on every path that hands the context back", "after an action inside the rel attribute of a link the context can be handed back ("+bad+") with the static rel values still in force: `<link rel=\"icon {{.X}}\" href=\"{{.U}}\">` with X=\"stylesheet\" takes a plain URL for a stylesheet")
 }
+
+// checkSpecialNamesAreOneElement (C02, C04; repair F40): the body of a special element (script, style, textarea,
+// title) ends at the end tag of that element only. When a conditional left several names for the element and two
+// of them are special elements, they must be the same element, or the scanner that looks for the current name's end
+// tag leaves the body where the browser, in the other branch, does not: on every path of the tag scanner on which
+// a name other than the current one was looked at, with both in the table of special elements, the context handed
+// back is an error.
+func checkSpecialNamesAreOneElement(p *Program, r *Report, rules ...string) {
+	T := p.Func("template", "tTag")
+	cn := "template.tTag#special-names-are-one-element"
+	undec := func(pos, why string) {
+		for _, x := range rules {
+			r.Undec(x, cn, pos, why)
+		}
+	}
+	if T == nil || T.Blocks == nil {
+		undec("", "anchor not found")
+		return
+	}
+	stSpecial := stateConst(p, "stateSpecialElementBody")
+	errState := stateConst(p, "stateError")
+	// the table of special elements: the membership test under which the state becomes "special element body"
+	var table *ssa.Global
+	var tableKind *ssa.Const
+	for _, b := range T.Blocks {
+		for _, in := range b.Instrs {
+			s, ok := in.(*ssa.Store)
+			if !ok {
+				continue
+			}
+			if _, path := pathAddrRoot(s.Addr); path != "state" {
+				continue
+			}
+			if k, ok := constInt(s.Val); !ok || k != stSpecial {
+				continue
+			}
+			for _, gd := range GuardsOf(b) {
+				if g, k, _, ok := memberTestOf(gd.Cond, 0); ok && gd.Pol {
+					table, tableKind = g, k
+				}
+			}
+		}
+	}
+	notDecided := func(why string) {
+		for _, x := range rules {
+			r.OK(x, cn, p.Pos(T.Pos()), "not decided: "+why+" (the clause is decided only where the tag scanner itself compares the names and enters the body)")
+		}
+	}
+	if table == nil {
+		notDecided("the test under which the tag scanner enters a special element body is not in the tag scanner")
+		return
+	}
+	sameKind := func(a, b *ssa.Const) bool {
+		if a == nil || b == nil {
+			return a == nil && b == nil
+		}
+		return a.Value != nil && b.Value != nil && a.Value.ExactString() == b.Value.ExactString()
+	}
+	isNamesElem := func(v ssa.Value) bool {
+		u, ok := v.(*ssa.UnOp)
+		if !ok || u.Op != token.MUL {
+			return false
+		}
+		ia, ok := u.X.(*ssa.IndexAddr)
+		if !ok {
+			return false
+		}
+		_, path, ok := loadPath(ia.X)
+		return ok && (path == "element.names" || strings.HasSuffix(path, ".element.names"))
+	}
+	isCurName := func(v ssa.Value) bool {
+		_, path, ok := loadPath(v)
+		return ok && (path == "element.name" || strings.HasSuffix(path, ".element.name"))
+	}
+	leaf := func(v ssa.Value) tv {
+		if g, k, _, ok := memberTestOf(v, 0); ok && g == table && sameKind(k, tableKind) {
+			return tvTrue // both names are special elements
+		}
+		if bo, ok := v.(*ssa.BinOp); ok && (bo.Op == token.EQL || bo.Op == token.NEQ) {
+			if isNamesElem(bo.X) && isCurName(bo.Y) || isNamesElem(bo.Y) && isCurName(bo.X) {
+				return tvOf(bo.Op == token.NEQ) // a name other than the current one
+			}
+		}
+		return tvUnknown
+	}
+	var start *ssa.BasicBlock
+	for _, b := range T.Blocks {
+		for _, in := range b.Instrs {
+			if v, ok := in.(ssa.Value); ok && start == nil {
+				if _, path, ok := loadPath(v); ok && path == "element.names" {
+					start = b
+				}
+			}
+		}
+	}
+	if start == nil {
+		notDecided("the tag scanner does not read element.names itself")
+		return
+	}
+	bad, n := "", 0
+	w := &tvWalk{Leaf: leaf, Visits: 2, Limit: 200000}
+	w.Step = func(in ssa.Instruction, st map[string]bool, val func(ssa.Value) tv) {
+		// a name looked at before the body kind is decided (later loops over the names, such as the one for void
+		// elements, are other rules' business)
+		if v, ok := in.(ssa.Value); ok && isNamesElem(v) && !st["special"] {
+			st["iter"] = true
+		}
+		if s, ok := in.(*ssa.Store); ok {
+			if _, path := pathAddrRoot(s.Addr); path == "state" {
+				if k, ok := constInt(s.Val); ok && k == stSpecial {
+					st["special"] = true
+				}
+			}
+		}
+	}
+	w.Ret = func(ret *ssa.Return, st map[string]bool, val func(ssa.Value) tv) {
+		if !st["iter"] {
+			return
+		}
+		n++
+		if !isErrorContextReturn(ret, errState) && st["special"] && bad == "" {
+			bad = p.Pos(ret.Pos())
+		}
+	}
+	w.run(start, map[string]bool{})
+	if w.Over {
+		undec(p.Pos(T.Pos()), "too many paths")
+		return
+	}
+	for _, x := range rules {
+		r.Check(bad == "" && n > 0, x, cn, p.Pos(start.Instrs[0].Pos()), "two different special elements among the names a conditional left for the element end in an error context", "the tag scanner enters a special element body ("+bad+") although a conditional left another special element among the names: the body is left at the end tag of the current name only — `{{if .C}}<script{{else}}<textarea{{end}}>0</textarea>{{.X}}</script>` emits a plain string inside <script>")
+	}
+}
